@@ -8,8 +8,8 @@ package gengorums
 // hasOpt(method, ext): the method's options message carries extension ext
 // (proto.HasExtension is deterministic - assumed at its call sites below).
 //@ specfun hasOpt(Int, Int) Bool
-//@ specfun clientStream(Iface) Bool
-//@ specfun serverStream(Iface) Bool
+// clientStream(desc) / serverStream(desc): the descriptor's stream kinds (declared with the
+// protobuf stubs in /verif/stubs/lib.spec).
 
 //@ func gengorums.hasMethodOption
 //@   props C16
@@ -37,10 +37,6 @@ package gengorums
 //@   props C16
 //@   requires method != nil
 //@   opt unroll=4
-//@   on call "method.Desc.IsStreamingClient"
-//@     after assume res0 == clientStream(method.Desc)
-//@   on call "method.Desc.IsStreamingServer"
-//@     after assume res0 == serverStream(method.Desc)
 //@   ensures[C16.illegal] (hasOpt(method, gorums.E_Async) && !hasOpt(method, gorums.E_Quorumcall) ==> result != nil) && \
 //@       (clientStream(method.Desc) && !hasOpt(method, gorums.E_Multicast) ==> result != nil) && \
 //@       (serverStream(method.Desc) && !hasOpt(method, gorums.E_Correctable) ==> result != nil) && \
